@@ -123,7 +123,9 @@ def v_enum(c, unrolled):
         else:
             attrs = v_field_attrs(f, j) + [m_instr(x, j) for x in sorted(f["own"])]
         variants.setdefault(f["v"], []).append(" ".join(attrs) + " V,")
-    body = " ".join(f"V{v}({' '.join(fs)})," for v, fs in sorted(variants.items()))
+    vstop = {f["v"] for f in c["fs"] if f.get("vst")}
+    # a variant-level stop_repeat is kept in the written-out form too: it has nothing to stop there and must change nothing
+    body = " ".join(("#[o2o(stop_repeat)] " if v in vstop else "") + f"V{v}({' '.join(fs)})," for v, fs in sorted(variants.items()))
     return f"#[from_owned(D)] #[from_ref(D)] enum S {{ {body} }}"
 
 
@@ -200,9 +202,9 @@ def run(tier, seed):
     ctx = core.Ctx("C14", tier, seed, LEVEL)
     trace, srcs = [], {}
     import streams
-    plan = ([("member", "MC_C14_mq", 20000), ("trait", "MC_C14_tq", None), ("trait", "MC_C14_tq2", None), ("trait", "MC_C14_tq3", None), ("vfield", "MC_C14_vq", None), ("variant", "MC_C14_nq", 16000)] if tier == "quick"
+    plan = ([("member", "MC_C14_mq", 20000), ("trait", "MC_C14_tq", None), ("trait", "MC_C14_tq2", None), ("trait", "MC_C14_tq3", None), ("vfield", "MC_C14_vq", 20000), ("variant", "MC_C14_nq", 16000)] if tier == "quick"
             else [("member", "MC_C14_mq", None), ("member", "MC_C14_mt", None), ("member", "MC_C14_mt4", None), ("trait", "MC_C14_tq", None), ("trait", "MC_C14_tq2", None), ("trait", "MC_C14_tq3", None),
-                  ("trait", "MC_C14_tt", None), ("trait", "MC_C14_tt2", None), ("vfield", "MC_C14_vq", None), ("vfield", "MC_C14_vt", None),
+                  ("trait", "MC_C14_tt", None), ("trait", "MC_C14_tt2", None), ("vfield", "MC_C14_vq", None), ("vfield", "MC_C14_vt", 300000),
                   ("variant", "MC_C14_nq", None), ("variant", "MC_C14_nt", None)])
     for lvl, cfg, cap in plan:
         # TLC checks FoldOk (the fold as implemented refines the declarative requirement) on every sequence while it enumerates them; the
